@@ -127,4 +127,126 @@ theorem defined_c14_contactNormal {θ : K} (hs : SqrtPos sq θ) (dpos t : V3 K) 
       | some y => rfl
       | none => simp only [Option.map_none, optsimp]; rfl
 
+
+@[optsimp] private theorem liftManifold3_mk (l : List (Contact3 K)) (a b : V3 K) :
+    (⟨l.map (liftContact3 sq), lift3 a, lift3 b⟩ : Manifold3 (Opt K sq)) = liftManifold3 sq ⟨l, a, b⟩ := id rfl
+@[optsimp] private theorem liftManifold2_mk (l : List (Contact2 K)) (a b : V2 K) :
+    (⟨l.map (liftContact2 sq), lift2 a, lift2 b⟩ : Manifold2 (Opt K sq)) = liftManifold2 sq ⟨l, a, b⟩ := id rfl
+@[optsimp] private theorem list_singleton_map3 (c : Contact3 K) :
+    [liftContact3 sq c] = [c].map (liftContact3 sq) := id rfl
+@[optsimp] private theorem list_singleton_map2 (c : Contact2 K) :
+    [liftContact2 sq c] = [c].map (liftContact2 sq) := id rfl
+
+/-- **C20 (`contact_manifold_convex_ball` after the normal is known)**: products, sums and one comparison — defined for every input. -/
+theorem defined_c14_convexBallOut (pos12 : Iso3 K) (p1 n1 : V3 K) (dist r2 pred : K) (flipped : Bool) (m : Manifold3 K)
+    (pos12' : Iso2 K) (p1' n1' : V2 K) (m' : Manifold2 K) :
+    letI := fieldNum K sq
+    convexBallOut3 (liftIso3 pos12 : Iso3 (Opt K sq)) (lift3 p1) (lift3 n1) (val dist) (val r2) (val pred) flipped
+        (liftManifold3 sq m) = liftManifold3 sq (convexBallOut3 pos12 p1 n1 dist r2 pred flipped m) ∧
+    convexBallOut2 (liftIso2 pos12' : Iso2 (Opt K sq)) (lift2 p1') (lift2 n1') (val dist) (val r2) (val pred) flipped
+        (liftManifold2 sq m') = liftManifold2 sq (convexBallOut2 pos12' p1' n1' dist r2 pred flipped m') := by
+  letI := fieldNum K sq
+  refine ⟨?_, ?_⟩
+  · simp only [convexBallOut3, optsimp]
+    split_ifs <;> simp only [optsimp] <;> rfl
+  · simp only [convexBallOut2, optsimp]
+    split_ifs <;> simp only [optsimp] <;> rfl
+
+/-- **C20 (contact_manifold_convex_ball, 3-D)**: for ANY first shape whose point projection is defined at the ball centre
+(hypothesis `hp`; e.g. `defined_c14_cuboidProject`, or the C05 projections of `Theorems2`), every pose, radius, prediction and
+flip flag — **the ball centre exactly on the shape (`dpos = 0`) and coincident centres included** (normal fallbacks of
+`defined_c14_contactNormal`); `hd`, `ht`: no underflow of the two squared norms that may be normalised. -/
+theorem defined_c14_convexBall3 {θ : K} (hs : SqrtPos sq θ)
+    (proj : V3 (Opt K sq) → Bool × V3 (Opt K sq)) (proj' : V3 K → Bool × V3 K)
+    (pos12 : Iso3 K) (r2 pred : K) (flipped : Bool) (m : Manifold3 K)
+    (hp : proj (lift3 pos12.t) = liftBV3 sq (proj' pos12.t))
+    (hd : letI := fieldNum K sq; (pos12.t.sub (proj' pos12.t).2).normSq = 0 ∨ θ < (pos12.t.sub (proj' pos12.t).2).normSq)
+    (ht : letI := fieldNum K sq; pos12.t.normSq = 0 ∨ θ < pos12.t.normSq) :
+    letI := fieldNum K sq
+    convexBall3 proj (liftIso3 pos12) (val r2) (val pred) flipped (liftManifold3 sq m)
+      = liftManifold3 sq (convexBall3 proj' pos12 r2 pred flipped m) := by
+  letI := fieldNum K sq
+  have hn := (defined_c14_contactNormal sq hs (pos12.t.sub (proj' pos12.t).2) pos12.t ⟨0, 0⟩ ⟨0, 0⟩ hd ht
+    (Or.inl (by simp [V2.normSq, V2.dot])) (Or.inl (by simp [V2.normSq, V2.dot]))).1
+  simp only [convexBall3, liftIso3_t, hp, liftBV3, lift3_sub, hn, liftVK3]
+  cases (proj' pos12.t).1
+  · simp only [Bool.false_eq_true, if_false]
+    exact (defined_c14_convexBallOut sq pos12 _ _ _ r2 pred flipped m Iso2.identity ⟨0, 0⟩ ⟨0, 0⟩ ⟨[], ⟨0, 0⟩, ⟨0, 0⟩⟩).1
+  · simp only [if_true, lift3_neg, val_neg]
+    exact (defined_c14_convexBallOut sq pos12 _ _ _ r2 pred flipped m Iso2.identity ⟨0, 0⟩ ⟨0, 0⟩ ⟨[], ⟨0, 0⟩, ⟨0, 0⟩⟩).1
+
+theorem defined_c14_convexBall2 {θ : K} (hs : SqrtPos sq θ)
+    (proj : V2 (Opt K sq) → Bool × V2 (Opt K sq)) (proj' : V2 K → Bool × V2 K)
+    (pos12 : Iso2 K) (r2 pred : K) (flipped : Bool) (m : Manifold2 K)
+    (hp : proj (lift2 pos12.t) = liftBV2 sq (proj' pos12.t))
+    (hd : letI := fieldNum K sq; (pos12.t.sub (proj' pos12.t).2).normSq = 0 ∨ θ < (pos12.t.sub (proj' pos12.t).2).normSq)
+    (ht : letI := fieldNum K sq; pos12.t.normSq = 0 ∨ θ < pos12.t.normSq) :
+    letI := fieldNum K sq
+    convexBall2 proj (liftIso2 pos12) (val r2) (val pred) flipped (liftManifold2 sq m)
+      = liftManifold2 sq (convexBall2 proj' pos12 r2 pred flipped m) := by
+  letI := fieldNum K sq
+  have hn := (defined_c14_contactNormal sq hs ⟨0, 0, 0⟩ ⟨0, 0, 0⟩ (pos12.t.sub (proj' pos12.t).2) pos12.t
+    (Or.inl (by simp [V3.normSq, V3.dot])) (Or.inl (by simp [V3.normSq, V3.dot])) hd ht).2
+  simp only [convexBall2, liftIso2_t, hp, liftBV2, lift2_sub, hn, liftVK2]
+  cases (proj' pos12.t).1
+  · simp only [Bool.false_eq_true, if_false]
+    exact (defined_c14_convexBallOut sq Iso3.identity ⟨0, 0, 0⟩ ⟨0, 0, 0⟩ _ r2 pred flipped ⟨[], ⟨0, 0, 0⟩, ⟨0, 0, 0⟩⟩ pos12 _ _ m).2
+  · simp only [if_true, lift2_neg, val_neg]
+    exact (defined_c14_convexBallOut sq Iso3.identity ⟨0, 0, 0⟩ ⟨0, 0, 0⟩ _ r2 pred flipped ⟨[], ⟨0, 0, 0⟩, ⟨0, 0, 0⟩⟩ pos12 _ _ m).2
+
+
+def liftProjSt (st : ProjSt K) : ProjSt (Opt K sq) := ⟨val st.best, st.isMins, st.bestId⟩
+@[optsimp] private theorem liftProjSt_mk (b : K) (m : Bool) (i : Nat) :
+    (⟨val b, m, i⟩ : ProjSt (Opt K sq)) = liftProjSt sq ⟨b, m, i⟩ := id rfl
+@[optsimp] private theorem liftProjSt_best (st : ProjSt K) : (liftProjSt sq st).best = val st.best := id rfl
+@[optsimp] private theorem liftProjSt_isMins (st : ProjSt K) : (liftProjSt sq st).isMins = st.isMins := id rfl
+@[optsimp] private theorem liftProjSt_bestId (st : ProjSt K) : (liftProjSt sq st).bestId = st.bestId := id rfl
+@[optsimp] private theorem fmax_val : letI := fieldNum K sq; (fmax : Opt K sq) = val (fmax : K) := id rfl
+@[optsimp] private theorem projStep_lift (a b : K) (i : Nat) (st : ProjSt K) :
+    letI := fieldNum K sq
+    projStep (val a : Opt K sq) (val b) i (liftProjSt sq st) = liftProjSt sq (projStep a b i st) := by
+  letI := fieldNum K sq
+  simp only [projStep, optsimp]
+  split_ifs <;> rfl
+
+/-- **C20 (`Cuboid::project_local_point_and_get_feature` as used by the manifold generator)**: no division, no square root —
+defined for every half-extents (flat boxes) and point: **centre, medial-plane ties, faces, edges, vertices** included. -/
+theorem defined_c14_cuboidProject (he pt : V3 K) (he' pt' : V2 K) :
+    letI := fieldNum K sq
+    cuboidProject3 (lift3 he : V3 (Opt K sq)) (lift3 pt) = liftBV3 sq (cuboidProject3 he pt) ∧
+    cuboidProject2 (lift2 he' : V2 (Opt K sq)) (lift2 pt') = liftBV2 sq (cuboidProject2 he' pt') := by
+  letI := fieldNum K sq
+  refine ⟨?_, ?_⟩
+  · simp only [cuboidProject3, optsimp]
+    repeat' (first | split_ifs | simp only [optsimp])
+    all_goals first | rfl | contradiction | (exfalso; simp only [optsimp] at *; tauto)
+  · simp only [cuboidProject2, optsimp]
+    repeat' (first | split_ifs | simp only [optsimp])
+    all_goals first | rfl | contradiction | (exfalso; simp only [optsimp] at *; tauto)
+
+/-- **C20 (contact manifold cuboid / ball)**: `defined_c14_convexBall3` instantiated with the cuboid projection: defined for every
+box and ball — **ball centre at the box centre, on a face, an edge or a vertex** — the only hypotheses being the two
+no-underflow conditions on the square-root operation. -/
+theorem defined_c14_cuboidBall3 {θ : K} (hs : SqrtPos sq θ) (he : V3 K) (pos12 : Iso3 K) (r2 pred : K) (flipped : Bool)
+    (m : Manifold3 K)
+    (hd : letI := fieldNum K sq; (pos12.t.sub (cuboidProject3 he pos12.t).2).normSq = 0 ∨
+      θ < (pos12.t.sub (cuboidProject3 he pos12.t).2).normSq)
+    (ht : letI := fieldNum K sq; pos12.t.normSq = 0 ∨ θ < pos12.t.normSq) :
+    letI := fieldNum K sq
+    convexBall3 (cuboidProject3 (lift3 he : V3 (Opt K sq))) (liftIso3 pos12) (val r2) (val pred) flipped (liftManifold3 sq m)
+      = liftManifold3 sq (convexBall3 (cuboidProject3 he) pos12 r2 pred flipped m) :=
+  defined_c14_convexBall3 sq hs _ _ pos12 r2 pred flipped m (defined_c14_cuboidProject sq he pos12.t ⟨0, 0⟩ ⟨0, 0⟩).1 hd ht
+
+/-- non-vacuity at `NaNable`: unit cube, unit ball exactly at the cube's centre and exactly on a vertex: finite manifolds -/
+theorem c14_cuboidBall_centre_vertex_finite :
+    (let m := convexBall3 (K := NaNable) (cuboidProject3 ⟨some 1, some 1, some 1⟩)
+        ⟨some 0, some 0, some 0, some 1, ⟨some 0, some 0, some 0⟩⟩ (some 1) (some 0) false Manifold3.new
+     m.points.map (fun c => (Option.isSome (c.p1.x : Option ℚ), Option.isSome (c.p2.y : Option ℚ), Option.isSome (c.dist : Option ℚ)))
+       = [(true, true, true)] ∧ Option.isSome (m.n1.x : Option ℚ) = true) ∧
+    (let m := convexBall3 (K := NaNable) (cuboidProject3 ⟨some 1, some 1, some 1⟩)
+        ⟨some 0, some 0, some 0, some 1, ⟨some 1, some 1, some 1⟩⟩ (some 1) (some 0) false Manifold3.new
+     m.points.map (fun c => (Option.isSome (c.p1.x : Option ℚ), Option.isSome (c.p2.y : Option ℚ), Option.isSome (c.dist : Option ℚ)))
+       = [(true, true, true)] ∧ Option.isSome (m.n1.x : Option ℚ) = true) := by
+  decide +kernel
+
 end C20
